@@ -224,6 +224,18 @@ def _run(vec, opts):
 
 
 def _diagnose(vec, opts, exc):
+    """narrow attribution (known findings are keyed on it):
+       auto_randomized_svd  svd = 'auto' (default) chose the randomized SVD (n >= 14, rank 1, large partition) and the same case
+                            is exact with svd = 'regular';
+       qiskit_apply_a2      exact when qiskit's _apply_a2 is the identity;  other / undiagnosed otherwise"""
+    try:
+        n = int(np.log2(len(vec)))
+        if opts.get("svd", "auto") == "auto" and n >= 14 and int(opts.get("lr") or 0) == 1:
+            bad, _ = _run(vec, dict(opts, svd="regular"))
+            if not bad:
+                return "auto_randomized_svd"
+    except Exception:
+        pass
     try:
         import qclib.unitary as qu
         orig = qu._apply_a2
@@ -350,6 +362,16 @@ def evaluate(ctx, deep):
                               sample={"n": n, "opt_params": {k: (list(v) if k == "partition" else v) for k, v in opts.items()},
                                       "vector_head": [complex(x) for x in vec[:4]]} if (n == 3 and r == 1) else None)
                     eval_case(ctx, vec, opts, fam)
+    # large states: with the default svd = 'auto' the library switches to a randomized SVD for rank 1, n >= 14
+    for rep in range(3 if deep else 1):
+        n = 14
+        part = list(range(7)) if rep % 2 == 0 else sorted(int(q) for q in rng.choice(n, size=7, replace=False))
+        vec = _unit(_cgauss(rng, 2 ** n))
+        opts = {"lr": 1, "partition": part}
+        ctx.monitor("n=14")
+        ctx.count("large_rank1", key=(n, tuple(part), 1, vec.tobytes()[:256]), nontrivial=True,
+                  sample={"n": n, "opt_params": opts} if rep == 0 else None)
+        eval_case(ctx, vec, opts, "large_rank1")
     ctx.note("C07: partition entry p designates axis p of v.reshape((2,)*n) (bit n-1-p of the amplitude index), qclib's labelling")
 
 
